@@ -153,6 +153,20 @@ Print Assumptions token_handmade_genesis_can_panic.
 
 Example token_nonvacuous : invb wit_s = true /\ query_by_mu wit_s 2 = Some (wit_tok 1 2).
 Proof. split; vm_compute; reflexivity. Qed.
+
+(** the code as it was (before "fix: token MsgUpdateParams rejects an issue fee denominated in an unregistered
+    symbol"; clause 5 of the check, corpus/C12/token-params-fee-denom-unregistered.jsonl): the theorems above hold
+    for states satisfying [invb], whose last clause says the issue-fee denom is a registered symbol.
+    MsgUpdateParams only ran Params.Validate, so the authority could name an unregistered symbol; the chain was then
+    in a state ([pf_s 3]: everything else of the invariant holds) whose export validates and whose import panics
+    ("Token ... does not exist").  With a registered symbol ([pf_s 1]) — all the repaired code accepts — the
+    invariant holds. *)
+Theorem token_import_total_refuted_after_param_change :
+  invb (pf_s 1) = true
+  /\ invb_core (pf_s 3) = true /\ fee_registered (pf_s 3) = false
+  /\ validate false (export (pf_s 3)) = true /\ import false (export (pf_s 3)) = None.
+Proof. exact token_import_total_refuted_after_param_change_lemma. Qed.
+Print Assumptions token_import_total_refuted_after_param_change.
 End TokenC12.
 
 (** ** nft: all four hold *)
